@@ -272,3 +272,62 @@ class Report:
         if c < n:
             raise AnalysisError(f'rule {rule}: only {c} analysed {what}, floor is {n} '
                                 f'(the rule would pass vacuously; anchors moved?)')
+
+
+# ---- canonical text: insensitive to operand order of commutative operators and to the direction of
+# comparisons (a > b == b < a), so that rules comparing conditions do not depend on how they are written
+class _Canon(ast.NodeTransformer):
+    def visit_Compare(self, n):
+        self.generic_visit(n)
+        if len(n.ops) == 1:
+            l, r, op = n.left, n.comparators[0], n.ops[0]
+            if isinstance(op, (ast.Gt, ast.GtE)):
+                return ast.Compare(left=r, ops=[ast.Lt() if isinstance(op, ast.Gt) else ast.LtE()], comparators=[l])
+            if isinstance(op, (ast.Eq, ast.NotEq, ast.Is, ast.IsNot)):
+                a, b = sorted([l, r], key=lambda x: ast.unparse(x))
+                return ast.Compare(left=a, ops=[op], comparators=[b])
+        return n
+
+    def visit_BoolOp(self, n):
+        self.generic_visit(n)
+        n.values = sorted(n.values, key=lambda x: ast.unparse(x))
+        return n
+
+    def visit_BinOp(self, n):
+        self.generic_visit(n)
+        if isinstance(n.op, (ast.Add, ast.Mult, ast.BitAnd, ast.BitOr, ast.BitXor)):
+            # flatten and sort the operands of an associative-commutative chain
+            def flat(x):
+                if isinstance(x, ast.BinOp) and type(x.op) is type(n.op):
+                    return flat(x.left) + flat(x.right)
+                return [x]
+            ops = sorted(flat(n), key=lambda x: ast.unparse(x))
+            out = ops[0]
+            for o in ops[1:]:
+                out = ast.BinOp(left=out, op=n.op, right=o)
+            return out
+        return n
+
+    def visit_UnaryOp(self, n):
+        self.generic_visit(n)
+        if isinstance(n.op, ast.Not) and isinstance(n.operand, ast.UnaryOp) and isinstance(n.operand.op, ast.Not):
+            return n.operand.operand
+        return n
+
+
+def cnorm(node):
+    """Canonical text of an expression (commutative operands sorted, comparisons oriented)."""
+    import copy
+    try:
+        t = _Canon().visit(copy.deepcopy(node))
+        ast.fix_missing_locations(t)
+        return ' '.join(ast.unparse(t).split())
+    except Exception:
+        return norm(node)
+
+
+def cnorm_text(text):
+    try:
+        return cnorm(ast.parse(text, mode='eval').body)
+    except Exception:
+        return text
